@@ -1,5 +1,5 @@
 import DcmVerif.Proofs.Code_header
-/-! The tie by proof (dcmstack.py: the slice-timing block of DicomStack.to_nifti): functions translated from the Python source on every run
+/-! The tie by proof (dcmstack.py: repetition time, dim_info and slice timing in DicomStack.to_nifti): functions translated from the Python source on every run
 (`tools/gen_code.py` → `Generated/Code_header.lean`) are the model functions the property theorems speak about.
 Statements only; proofs are by reference to `Proofs/Code_header.lean`. One file per function group, so that an edit
 of one function only unsettles the properties that depend on it. -/
@@ -18,7 +18,14 @@ theorem header_slice_times_is_model (fpv nVols n : Nat) (files : List (Option In
     Py.header_slice_times fpv nVols n files = .ok (sliceTimesOf fpv nVols n files) :=
   Src.header_slice_times_eq fpv nVols n files hn hv hlen
 
-/-- the translator translated every function of this group (dcmstack.py: the slice-timing block of DicomStack.to_nifti) -/
+/-- **the repetition time and `dim_info` that `to_nifti` writes, as in dcmstack.py, are the model's `trOf` / `dimInfoOf`** (for a
+    permutation of the three spatial axes; the slice axis is `permutation[2]`) -/
+theorem header_dim_info_is_model (trs : List (Option Int)) (pes : List (Option Nat)) (a b c : Nat) :
+    Py.header_dim_info trs pes [a, b, c] c =
+      .ok (trOf trs, (dimInfoOf pes [a, b, c]).1, (dimInfoOf pes [a, b, c]).2.1, (dimInfoOf pes [a, b, c]).2.2) :=
+  Src.header_dim_info_eq trs pes a b c
+
+/-- the translator translated every function of this group (dcmstack.py: repetition time, dim_info and slice timing in DicomStack.to_nifti) -/
 theorem translator_complete_header : Gen.codeMissing_header = [] := rfl
 
 end Source
